@@ -18,7 +18,7 @@ CHECKS["C18"] = dict(
     rule=("exhaustive round trip of all 65535 non-zero group and individual addresses; exhaustive component "
           "tuples over the documented ranges widened by 4 on both sides (negatives included) against an independent "
           "reference parser; exhaustive constructor argument spaces (3 x 2^24 + 2^16) against shift/mask reference; "
-          "rapid grammar-based malformed strings. Non-trivial = round-trip address, or tuple with a component on or "
+          "every component of every form replaced by k*2^w + r (w = 8,16,31,32,63,64; r at the edges of its range), rapid grammar-based malformed strings and rapid wrapped numerals. Non-trivial = round-trip address, or tuple with a component on or "
           "outside a range bound, or malformed string (distinct by text)."),
     level_text=("Exhaustive enumeration of the finite sub-spaces the statement names (all addresses, all widened component tuples, "
                 "all constructor arguments) plus generated malformed text, against an independent reference parser/formatter. "
@@ -73,7 +73,7 @@ CHECKS["C11"] = dict(
     rule=("enumerated L_Data descriptions (all 2^16 control-octet pairs, all APCI x sequence x numbered x control/data combinations, "
           "payload lengths 1..254, info lengths 0..255, corner addresses), all 256 x 256 TPCI/APCI octet pairs as raw layouts, the "
           "five helper functions over all 256 arguments, plus rapid-drawn L_Data values; differential in both directions against the "
-          "independent reference L_Data encoder/decoder. Every enumerated case is distinct by construction and counts as non-trivial "
+          "independent reference L_Data encoder/decoder; after decoding, the input buffer is overwritten and the fields compared again. Every enumerated case is distinct by construction and counts as non-trivial "
           "(each exercises a different bit pattern); rapid cases are distinct by reference encoding."),
     level_text=("Exhaustive on the bit-level sub-spaces the statement names, sampled on their product; exact byte-level differential "
                 "oracle against an independently written layout codec."),
@@ -88,13 +88,15 @@ CHECKS["C15"] = dict(
           "sub-structures (HostInfo, DIBs, service family, Info, transport unit, cEMI message, unknown service) is packed into "
           "Size()+16-byte buffers pre-filled with 0x00, 0xFF and a rapid-drawn pattern and into an exact-capacity slice; plus oversize "
           "info (256..600), application data (256..600), names of 30..80 characters and non-Latin-1 names, decoded by the reference "
-          "decoder. Non-trivial = frame with nested cEMI / description block, or an oversize part; distinct by (encoding, fill)."),
+          "decoder. Job sock: frames sent by 1..8 goroutines through live sockets and compared at the peer. Non-trivial = frame with nested "
+          "cEMI / description block, an oversize part, or >= 2 concurrent senders; distinct by (encoding, fill) / plan."),
     level_text=("Sampled exploration with exact oracles: guard bytes untouched, encoding identical under three pre-fills and in an "
                 "exact-size buffer, header length = Size()+6 = len(AllocAndPack); oversize parts decode to the truncated original."),
-    level_note="Trusted: harness/common/ref.go reference decoder for the oversize clause. The datagram-length clause is decided on real sockets by the C16 socket job (one datagram per Send equal to AllocAndPack).",
-    technique="rapid property-based testing with guard-byte / multi-fill metamorphic oracle and reference decoder",
+    level_note="Trusted: harness/common/ref.go reference decoder for the oversize clause. The datagram-length clause is decided on real loopback sockets by the job sock: 1..8 goroutines sending 2..40 frames of mixed sizes through one UDP, TCP or multicast socket; every unit the peer receives must be the reference encoding of a frame that was sent.",
+    technique="rapid property-based testing with guard-byte / multi-fill metamorphic oracle and reference decoder; rapid concurrent-send histories on live sockets compared with the reference encoding",
     assumptions=["a name of 30 or more characters may be cut to 29 characters + NUL or to 30 characters (both are 'the field limit')"],
-    jobs=[dict(name="pure", pkg="./pure", go=GO, test="TestC15", shards=(2, 16), checks=(30000, 400000), timeout=(300, 3000))],
+    jobs=[dict(name="pure", pkg="./pure", go=GO, test="TestC15", shards=(2, 16), checks=(30000, 400000), timeout=(300, 3000)),
+          dict(name="sock", pkg="./sock", go=GO, test="TestC15Sock", shards=(4, 16), checks=(60, 1500), timeout=(600, 3000))],
 )
 
 CHECKS["C06"] = dict(
@@ -153,7 +155,7 @@ CHECKS["C19"] = dict(
           "value) and all exported DPT_* type declarations found by parsing /repo/knx/dpt/*.go (each reachable through a name); "
           "rapid: near-miss and free strings (unknown => ok=false, nil), single-goroutine histories of 2..40 Produce / Unpack(payload "
           "fitting the handle's type, 10% wrong length) / lookup steps over 1..4 type names, and (job race, built with -race) 2..16 "
-          "goroutines running such histories concurrently with a shared name. After every step every live handle is compared with a "
+          "goroutines running such histories concurrently with a shared name; decode storms: 2..12 goroutines decoding 1..3 payloads each 100..1500 times into their own instances of types with one main number, each result compared with a decode of the same payload done alone. After every step every live handle is compared with a "
           "private snapshot. Non-trivial = history with >= 2 instances of one name and >= 1 successful decode, or a lookup of an "
           "unlisted name; distinct by plan."),
     level_text=("Complete over the registered names and the declared types of the current source; sampled histories and schedules with a "
@@ -218,7 +220,7 @@ _RTR_ASSUME = ["A2 (memsock is a faithful model of the kernel sockets above the 
 CHECKS["C13"] = dict(
     rule=("rapid-drawn router runs on the real clock: post-send pause 0/1/2/5/20 ms, 1..8 sender goroutines, bursts of up to 200 messages, "
           "scenario classes pacing / busy at idle (hand-over stamped, lock then seen held through the TryLock probe, senders released "
-          "only then) / busy storm / busy under saturation, wait times 0..500 ms and 65535 ms, both control values. Non-trivial = run "
+          "only then) / busy storm / busy under saturation, routing-lost indications (count 1..6) injected during half of the pacing bursts so that repetitions compete with queued senders, wait times 0..500 ms and 65535 ms, both control values. Non-trivial = run "
           "with >= 2 contending senders or a busy indication that was seen to take effect; distinct by plan."),
     level_text=("Sampled schedules on the real clock with one-sided oracles: start(i+1) - end(i) >= pause for every successful transmission, "
                 "no transmission earlier than hand-over + min(wait, 50 ms) once the lock was seen held at idle, a silence of at least "
@@ -333,7 +335,7 @@ CHECKS["C16"] = dict(
           "(exhaustive); UDP sequences of 1..40 datagrams; 1..8 goroutines sending 1..40 frames concurrently over UDP and TCP; "
           "knx.NewTunnel over both socket kinds with SendLocalAddress on/off; the multicast RouterSocket receiving 1..40 datagrams from "
           "and sending 1..24 frames (1..6 goroutines) to a group member; Close called at a drawn moment while the peer keeps transmitting "
-          "20..300 distinct frames (UDP and TCP). Non-trivial = TCP stream of >= 2 frames with a cut, or "
+          "20..300 distinct frames (UDP and TCP); a reader that stays away from Inbound() for 5..250 ms (job slow-reader: 1.1..2.6 s, thorough up to 11 s) while 2..12 frames arrive. Non-trivial = TCP stream of >= 2 frames with a cut, or "
           ">= 2 concurrent senders, or a UDP/HPAI case; distinct by plan."),
     level_text=("Sampled streams and segmentations on real kernel sockets; oracle: the values read from Inbound() equal the in-process "
                 "decodes of the transmitted frames, in order, each once; every unit the peer receives is the complete encoding of one sent "
@@ -342,13 +344,15 @@ CHECKS["C16"] = dict(
     level_note="Trusted: the in-process decode as the expected value (C01/C02 judge the decoder itself). The harness controls write boundaries; the kernel decides read boundaries.",
     technique="rapid-generated frame streams x segmentations against live loopback sockets (differential against in-process decoding; multiset/no-interleaving oracle for concurrent Sends)",
     assumptions=_SOCK_ASSUME,
-    jobs=[dict(name="sock", pkg="./sock", go=GO, test="TestC16", shards=(4, 16), checks=(150, 3000), timeout=(600, 3000))],
+    jobs=[dict(name="sock", pkg="./sock", go=GO, test="TestC16", shards=(4, 16), checks=(150, 3000), timeout=(600, 3000)),
+          # a consumer that stays away from Inbound() for 1.1..2.6 s (thorough: up to 11 s) while 2..12 frames arrive
+          dict(name="slow-reader", pkg="./sock", go=GO, test="TestC16Slow", shards=(8, 16), checks=(2, 12), timeout=(600, 3000))],
 )
 
 CHECKS["C20"] = dict(
     rule=("rapid-drawn calls on real sockets: DescribeTunnel against a loopback UDP server and Discover against 1..20 multicast responders "
           "(own 239.255.x.y group and port per case), timeouts 1..500 ms, scripts of 0..12 frames at drawn instants before, around and "
-          "after the deadline: matching responses, well-formed frames of other services, malformed frames, (describe) a matching response "
+          "after the deadline: matching responses, well-formed frames of other services, malformed frames down to runt and empty datagrams, (describe) a matching response "
           "from another address; chatter scripts (a frame of another service every timeout/2 for timeout + 1.6 s); bursts of 3..8 long "
           "answers behind the first one, the call repeated 8 times; plus DescribeTunnel against a port nobody listens on. Non-trivial = script with a non-matching or "
           "malformed frame before the first match, a late first match, or no match; distinct by plan."),
